@@ -208,6 +208,20 @@ fn ma_slot<T: Scalar>(mk: MaK, n: usize, m: &Spec, class: Class, len: usize, rng
         );
         return;
     }
+    // PFE smooths the efficiency of every full window: from the N-th value on its slot is fed on
+    // every update, whether or not the efficiency repeats (EFT legitimately skips a flat window)
+    if mk == MaK::Pfe {
+        out.cell("ma-slot/Pfe/fed-on-every-full-window", 1);
+        if let Some(i) = (n - 1..xs.len()).find(|&i| fed_count[i] != i + 2 - n) {
+            out.violation(
+                &host.top(),
+                "ma-slot-fed-once-per-update",
+                "any",
+                format!("{} at {}: step {}: the moving-average slot has been updated {} times for {} full windows\n{}", host.show(), T::NAME, i, fed_count[i], i + 2 - n, show_inputs(&xs, i, 24)),
+            );
+            return;
+        }
+    }
     if fed.iter().any(|v| !v.is_finite()) {
         out.inconclusive("ma-slot fed non-finite");
         return;
@@ -456,7 +470,8 @@ fn dispatch<T: Scalar>(cfg: &Cfg, sect: Sect, j: u64, rng: &mut Rng, out: &mut T
                 Spec::Echo,
             ];
             let m = ms[((j / 2) % ms.len() as u64) as usize].clone();
-            let class = *rng.pick(&CLASSES);
+            // (streams whose efficiency repeats included)
+            let class = if rng.chance(1, 3) { *rng.pick(&[Class::Const, Class::RampUp, Class::Alternating, Class::Step]) } else { *rng.pick(&CLASSES) };
             ma_slot::<T>(mk, n, &m, class, len, rng, out);
         }
         Sect::MaView => {
